@@ -202,6 +202,14 @@ def gen(seed, index):
     scn = {"seed": seed, "mode": r.choice(["Serial", "Serial", "OpenMP"]), "history": hist, "env": r.choice(ENVS)}
     # builds per simulated process: 1 = a fresh process per build; k > 1 = up to k consecutive builds share one process
     scn["inproc"] = r.choice([1, 1, 1, 2, 3]) if fam != "rewrite" else r.choice([2, 3, 4])
+    # an editor process rewrites the kernel file with the other text WHILE build i runs (seeded start delay); that build is
+    # not judged, the builds after it are (the file is put back by the next builder itself)
+    scn["races"] = {}
+    if fam == "rewrite" and r.random() < 0.35:
+        scn["inproc"] = 1
+        for i in range(len(hist) - 1):
+            if r.random() < 0.4:
+                scn["races"][str(i)] = r.randint(0, 150)
     return scn
 
 
@@ -243,6 +251,7 @@ def execute(scn, sb):
     logs = []
     builds = []
     inproc = max(1, scn.get("inproc", 1))
+    raced = set()      # builds that overlapped a rewrite of their kernel file: not judged
     results = []       # per build: (output line, vproc result, compiles or None)
     for g0 in range(0, len(hist), inproc):
         group = hist[g0:g0 + inproc]
@@ -253,7 +262,16 @@ def execute(scn, sb):
                 job["device"] = dev
             jobs.append((job, dev))
         vp = ps.VProcSpec({"mode": mode, "device": jobs[0][1] if len(group) == 1 else {}, "jobs": [j[0] for j in jobs]}, env=dict(env))
-        g = ps.run_group(sb, seed, [vp], strategy=("rtb", 0, 1), clock0=steps * 10 ** 6)
+        race = (scn.get("races") or {}).get(str(g0)) if len(group) == 1 and group[0]["kind"] == 1 else None
+        if race is not None:
+            other = dict(group[0], src=(group[0]["src"] + 1) % len(SPACE["src"]))
+            path = os.path.join(sb.proj, "k06.okl")
+            editor = ps.VProcSpec({"mode": mode, "jobs": [{"kind": "none", "kernel": "k", "prewrite": {path: KERNEL % {"src": SPACE["src"][other["src"]]}}}]},
+                                  delay=race)
+            g = ps.run_group(sb, seed + g0, [vp, editor], strategy=("uniform",), clock0=steps * 10 ** 6)
+            raced.add(g0)
+        else:
+            g = ps.run_group(sb, seed, [vp], strategy=("rtb", 0, 1), clock0=steps * 10 ** 6)
         steps += g.gsteps
         logs += g.log
         by = {o.get("job"): o for o in g.outputs[0]}
@@ -261,6 +279,8 @@ def execute(scn, sb):
             results.append((by.get(j, by.get(-1, {"status": "none"})), g.vp[0], g.vp[0]["compiles"] if len(group) == 1 else None))
     for i, cfg in enumerate(hist):
         o, vpres, compiles = results[i]
+        if i in raced:
+            continue
         ref = refs[i]
         ek = effective_key(cfg, env)
         builds.append({"cfg": cfg_key(cfg), "status": o.get("status"), "out": o.get("out"), "compiles": compiles})
@@ -302,7 +322,8 @@ def execute(scn, sb):
         "nontrivial": distinct_cfgs >= 2,
         "distinct_key": hashlib.sha256((mode + json.dumps([cfg_key(c) for c in hist]) + json.dumps(env, sort_keys=True) + str(inproc)).encode()).hexdigest()[:16],
         "probes": {"builds": len(hist), "distinct_configurations_in_history": distinct_cfgs,
-                   "repeated_configurations": len(hist) - len(set(cfg_key(c) for c in hist))},
+                   "repeated_configurations": len(hist) - len(set(cfg_key(c) for c in hist)),
+                   "builds_overlapping_a_rewrite_of_their_kernel_file": len(raced)},
         "states": [hashlib.sha256(json.dumps(sb.tree_state()).encode()).hexdigest()[:12]],
         "summary": builds,
         "excerpt": logs[:20],
@@ -332,9 +353,13 @@ def signature(scn, out):
             else:
                 vals.append(k)
         props = "+".join(vals)
+    if scn.get("races") and v[0] in ("stale-binary", "shared-entry", "exception"):
+        # one recorded finding whatever the rest of the configuration is (see KNOWN_FINDINGS.txt)
+        return "%s|kernel-file-rewritten-during-a-build" % PROP
     envs = ",".join(sorted((scn.get("env") or {}).keys()))
     return "%s|%s|differ=%s%s%s" % (PROP, v[0], props, ("|env=" + envs) if envs else "",
-                                    "|several-builds-in-one-process" if scn.get("inproc", 1) > 1 else "")
+                                    ("|several-builds-in-one-process" if scn.get("inproc", 1) > 1 else "") +
+                                    ("|kernel-file-rewritten-during-a-build" if scn.get("races") else ""))
 
 
 def minimise(ex, scn, out, cls):
@@ -343,6 +368,13 @@ def minimise(ex, scn, out, cls):
         return cls in [v[0] for v in o.get("violations", [])], o
 
     hist = list(scn["history"])
+    if scn.get("races"):
+        ok, _ = fails(dict(scn, races={}))
+        if ok:
+            scn = dict(scn, races={})
+        else:
+            # the race indices refer to positions in the history: keep the history as it is
+            return scn, out
 
     def fails_hist(sub):
         if not sub:
